@@ -575,7 +575,7 @@ func init() {
 		Shards: shards(12, 16),
 		Meta: func(tier string) rt.Meta {
 			return rt.Meta{Level: "exploration", MinEvals: 5000, MinDistinct: 100,
-				Rule:        "differential lockstep against *os.File on tmpfs (chroot): scenarios of one file (0-40 bytes), optionally a second hard link, up to 3 handles opened with independently drawn flag sets (36 sets) and 60 steps of Read/ReadAt/Write/WriteAt/WriteString/Seek/Truncate/Stat/Sync/Chmod/Chown/Close/re-open and path-level Truncate/Rename/Link/Remove/Chmod/WriteFile of the file; offsets, sizes and lengths straddle the current size. After EVERY step the offset and Stat of every open handle and the content/size/mode/owner/nlink of every link are compared. Plus bounded-exhaustive: every sequence of 2 (quick) / 3 (thorough) operations of a reduced set for each flag set. Directory handles are judged against the statement itself; in one scenario out of four the directory shrinks and grows between the batches (every batch call must still return, with names that existed). Chdir on handles: handles opened under relative, unclean and symbolic-link names while the current directory moves (24 steps), Getwd compared after every step. Modes given to path and handle Chmod include the setuid/setgid/sticky bits; every buffer given to a write is overwritten by the harness afterwards (aliasing); scenarios on files of several MiB (writes of 1 byte to 3 MiB around the 32 KiB and 1 MiB marks, truncations across them, reads of up to 1 MiB); one directory in sixteen holds 200-1400 entries read in batches of up to 1000. Modification times: every name gets an old sentinel time before each step, and whether a step updated it is compared (not what the clock said; truncate(2) to the same size excepted). Handles held by an ordinary user while the mode and owner of the file change under them, every step also issued by the kernel under the same fsuid/fsgid. Signature = fs | op | handle mode | offset-vs-size class | argument classes | outcome; non-trivial = not the first step.",
+				Rule:        "differential lockstep against *os.File on tmpfs (chroot): scenarios of one file (0-40 bytes), optionally a second hard link, up to 3 handles opened with independently drawn flag sets (36 sets) and 60 steps of Read/ReadAt/Write/WriteAt/WriteString/Seek/Truncate/Stat/Sync/Chmod/Chown/Close/re-open and path-level Truncate/Rename/Link/Remove/Chmod/WriteFile of the file; offsets, sizes and lengths straddle the current size. After EVERY step the offset and Stat of every open handle and the content/size/mode/owner/nlink of every link are compared. Plus bounded-exhaustive: every sequence of 2 (quick) / 3 (thorough) operations of a reduced set for each flag set. Directory handles are judged against the statement itself; in one scenario out of four the directory shrinks and grows between the batches (every batch call must still return, with names that existed). Chdir on handles: handles opened under relative, unclean and symbolic-link names while the current directory moves (24 steps), Getwd compared after every step. Modes given to path and handle Chmod include the setuid/setgid/sticky bits; every buffer given to a write is overwritten by the harness afterwards (aliasing); scenarios on files of several MiB (writes of 1 byte to 3 MiB around the 32 KiB and 1 MiB marks, truncations across them, reads of up to 1 MiB); one directory in sixteen holds 200-1400 entries read in batches of up to 1000. Modification times: every name gets an old sentinel time before each step, and whether a step updated it is compared (not what the clock said; truncate(2) to the same size excepted). Handles held by an ordinary user while the mode and owner of the file change under them, every step also issued by the kernel under the same fsuid/fsgid. After the first io.EOF of a directory handle one entry is removed and one created: batches read from then on never deliver a name that is gone, nor a name twice before the next io.EOF (whether the handle stays at the end or starts over is not judged). Signature = fs | op | handle mode | offset-vs-size class | argument classes | outcome; non-trivial = not the first step.",
 				Assumptions: []string{"Seek whence 3/4 (SEEK_DATA/HOLE) are never generated; error strings, Fd and mtimes are not compared", "WriteAt with an empty buffer on a closed handle is not compared (os.File returns nil there, the property demands a closed-file error)"}}
 		},
 		Timeout: func(tier string) int {
